@@ -265,8 +265,15 @@ def gxx_check(ctx, cases, tag):
     try:
         lines = CXX_HEAD.split("\n")
         where = {}
+        def tparam(d, top=True):
+            if not top and d.template_arguments:
+                return True
+            return any(tparam(p, False) for p in (d.params or []))
+
         for i, (text, a) in enumerate(cases):
             name = a.name
+            if tparam(a):
+                continue      # gen_arg_as_cxx writes a std::vector<T> parameter as T (C wrapper argument), by design
             try:
                 # with_template_args: the C++ type itself (the default turns vector<T> into T for the C wrapper)
                 rendered = a.gen_arg_as_cxx(with_template_args=True)
